@@ -12,6 +12,9 @@
      scansh <file name> <content> <yaml table>
      enrich <pkg path> <package_dto> <glob table> <dur table>     -> ok <json package> | error <class>
      guardmk <content>                      -> guard=<0|1>   (Loader.mk_guard on the scanned lines)
+     blocksmk / blockssh / scanmk / scansh / guardmk take an optional last field <maxlen> (decimal): the
+     bufio.Scanner token limit, default 65536 (the extracted List.rev is quadratic, so the token-too-long
+     boundary is exercised with a small limit on both sides)
      merge <( (path dto) ... )> <glob table> <dur table>          -> ok nodes-ok|nodes-error <json packages> | error <class>
    JSON answers have the shape of the Go harness' dumps (strings hex encoded). *)
 open Model
@@ -117,8 +120,10 @@ let show_scan f = function
   | ScanErr e -> "error\t" ^ scan_err e
   | ScanOk (found, a) -> Printf.sprintf "ok\t%s\t%s" (if found then "true" else "false") (f a)
 
-let guard_of content =
-  let (ls, _) = split_lines max_token content in
+let mx s = nat_of_int (int_of_string s)
+
+let guard_of ?(ml = max_token) content =
+  let (ls, _) = split_lines ml content in
   if mk_guard ls then "guard=1" else "guard=0"
 
 (* the blocks a scanner hands to YAML: run it with the most permissive decoder and log the calls *)
@@ -160,13 +165,21 @@ let () =
         try
           match split_tab line with
           | ["blocksmk"; c] -> blocks (fun y -> ignore (scan_makefile_file max_token y (fld c)))
+          | ["blocksmk"; c; n] -> blocks (fun y -> ignore (scan_makefile_file (mx n) y (fld c)))
           | ["blockssh"; c] -> blocks (fun y -> ignore (scan_script_file max_token y [] (fld c)))
+          | ["blockssh"; c; n] -> blocks (fun y -> ignore (scan_script_file (mx n) y [] (fld c)))
           | ["scanmk"; c; yt] ->
             let y = oracle "yaml" (table annot_of (parse_sx yt)) in
             show_scan (jl j_dto) (scan_makefile_file max_token y (fld c)) ^ "\t" ^ guard_of (fld c)
+          | ["scanmk"; c; yt; n] ->
+            let y = oracle "yaml" (table annot_of (parse_sx yt)) in
+            show_scan (jl j_dto) (scan_makefile_file (mx n) y (fld c)) ^ "\t" ^ guard_of ~ml:(mx n) (fld c)
           | ["scansh"; file; c; yt] ->
             let y = oracle "yaml" (table annot_of (parse_sx yt)) in
             show_scan (fun t -> jl j_dto [t]) (scan_script_file max_token y (fld file) (fld c))
+          | ["scansh"; file; c; yt; n] ->
+            let y = oracle "yaml" (table annot_of (parse_sx yt)) in
+            show_scan (fun t -> jl j_dto [t]) (scan_script_file (mx n) y (fld file) (fld c))
           | ["enrich"; p; dto; gt; dt] ->
             let g = oracle "glob" (table strs (parse_sx gt)) in
             let d = oracle "dur" (table atom (parse_sx dt)) in
@@ -175,6 +188,7 @@ let () =
              | Err e -> "error\t" ^ load_err e)
           | ["merge"; frs; gt; dt] -> do_merge frs gt dt
           | ["guardmk"; c] -> guard_of (fld c)
+          | ["guardmk"; c; n] -> guard_of ~ml:(mx n) (fld c)
           | ["trim"; s] -> "trim\t" ^ hex (of_str (trim_space (fld s)))
           | cmd :: _ -> "unknown-command " ^ cmd
           | [] -> "empty"
